@@ -304,12 +304,21 @@ func (r *storeRun) op(t *toks) {
 		}
 		if r.c != nil {
 			r.c = nil
-			c, err := syz.NewCollection(syz.CollectionOptions{Name: r.path, FileMode: mode})
+			// conflicting but valid options: the stored options record must win (or the open must fail)
+			oq := 8
+			if r.q == 8 {
+				oq = 64
+			}
+			c, err := syz.NewCollection(syz.CollectionOptions{Name: r.path, FileMode: mode, DimensionCount: r.dim + 1, Quantization: oq, DistanceMethod: 1 - r.metric})
 			if err != nil {
 				line(60, 1)
 				return
 			}
 			r.c = c
+			if o2 := c.GetOptions(); o2.DimensionCount != r.dim || o2.Quantization != r.q || o2.DistanceMethod != r.metric {
+				line(60, 4)
+				return
+			}
 		} else {
 			r.sf = nil
 			sf, err := syz.OpenFile(r.path, mode)
